@@ -7,6 +7,7 @@ pub mod c05;
 pub mod c06;
 pub mod c09;
 pub mod c10;
+pub mod c13;
 pub mod c16;
 pub mod c19;
 pub mod e3;
@@ -26,6 +27,7 @@ pub fn run(id: &str, tier: Tier) -> i32 {
         "C08" => e3::run_c08(tier),
         "C17" => e3::run_c17(tier),
         "C16" => c16::run(tier),
+        "C13" => c13::run(tier),
         "C11" => e4::run_c11(tier),
         "C12" => e4::run_c12(tier),
         _ => {
@@ -48,6 +50,7 @@ pub fn recheck(id: &str, case: &Value) -> Vec<String> {
         "C08" => e3::recheck_typed(case),
         "C17" => e3::recheck_rt(case),
         "C16" => c16::recheck(case),
+        "C13" => c13::recheck(case),
         "C11" => e4::recheck_c11(case),
         "C12" => e4::recheck_c12(case),
         _ => vec![],
@@ -90,7 +93,12 @@ pub fn replay(id: &str, path: &str) -> i32 {
     }
 }
 
-pub fn internal(cmd: &str, _args: &[String]) -> i32 {
-    eprintln!("unknown command {}", cmd);
-    2
+pub fn internal(cmd: &str, args: &[String]) -> i32 {
+    match cmd {
+        "scale-probe" => c13::scale_probe(args),
+        _ => {
+            eprintln!("unknown command {}", cmd);
+            2
+        }
+    }
 }
